@@ -98,7 +98,8 @@ class _ColIO:
     HDR bytes of header + REP_LEN + DEF_LEN + VAL_LEN"""
 
     def __init__(self, pages):
-        self.pages, self.k, self.pos, self.dict_done = pages, -1, 0, False
+        # (a chunk of PLAIN pages has no dictionary page: the layout below keeps HDR bytes in front either way)
+        self.pages, self.k, self.pos, self.dict_done = pages, -1, (HDR if V2ENC == "plain" else 0), V2ENC == "plain"
 
     def tell(self):
         return self.pos
@@ -139,6 +140,7 @@ class _Raw:
 
 
 PAGES = [None]
+V2ENC = os.environ.get("VERIF_V2ENC", "dict")          # dict | plain   (encoding of the values of every data page)
 
 
 def _fill(dst, values, n):
@@ -193,7 +195,8 @@ class _TO:
             nr += (x == 0)
         size = REP_LEN + DEF_LEN + VAL_LEN
         dph = parquet_thrift.DataPageHeaderV2(
-            num_values=len(d), num_nulls=nn, num_rows=nr, encoding=parquet_thrift.Encoding.RLE_DICTIONARY,
+            num_values=len(d), num_nulls=nn, num_rows=nr,
+            encoding=parquet_thrift.Encoding.PLAIN if V2ENC == "plain" else parquet_thrift.Encoding.RLE_DICTIONARY,
             definition_levels_byte_length=DEF_LEN, repetition_levels_byte_length=REP_LEN, is_compressed=False)
         return parquet_thrift.PageHeader(type=parquet_thrift.PageType.DATA_PAGE_V2, compressed_page_size=size,
                                          uncompressed_page_size=size, data_page_header_v2=dph)
@@ -215,6 +218,12 @@ class _NP:
     @staticmethod
     def not_equal(a, b, out=None):
         raise TypeError("flat-column path reached for a repeated column")
+
+
+def _s_read_plain(raw, type_, count, width=0, utf=False, stat=False):
+    if isinstance(raw, _Tok) and raw.kind == "val":
+        return _Vec([100 + x for x in raw.page[2]][:count])
+    return _Vec([-777] * count)
 
 
 def _s_read_dictionary_page(infile, schema_helper, ph, cmd, utf=False):
@@ -240,15 +249,17 @@ def run_read_col_v2(defi, rep, splits):
     md = parquet_thrift.ColumnMetaData(type=2, path_in_schema=["col", "list", "element"], num_values=len(rep),
                                        data_page_offset=4, total_compressed_size=100, codec=0)
     col = parquet_thrift.ColumnChunk(meta_data=md)
-    saved = (core.encoding, core.ThriftObject, core.read_dictionary_page, core.np, core.convert, core.decompress_data)
+    saved = (core.encoding, core.ThriftObject, core.read_dictionary_page, core.np, core.convert, core.decompress_data,
+             core.read_plain)
     core.encoding, core.ThriftObject, core.read_dictionary_page, core.np = _EncNS, _TO, _s_read_dictionary_page, _NP
     core.convert = lambda v, se, dtype=None: v
     core.decompress_data = lambda data, size, codec: data
+    core.read_plain = _s_read_plain
     try:
         core.read_col(col, HELPER, _Raw(), assign=_Assign(store))
     finally:
         (core.encoding, core.ThriftObject, core.read_dictionary_page, core.np, core.convert,
-         core.decompress_data) = saved
+         core.decompress_data, core.read_plain) = saved
     return store
 
 
@@ -271,4 +282,5 @@ def h_read_col_list_v2(defi: List[int], rep: List[int]) -> bool:
 
 def replay_h_read_col_list_v2(defi, rep):
     from vf.pyxlift import nested_file
-    return nested_file.replay_list(defi, rep, SPLITS, OPT_LIST, OPT_ELEM, MAXD, dremel(defi, rep), version=2)
+    return nested_file.replay_list(defi, rep, SPLITS, OPT_LIST, OPT_ELEM, MAXD, dremel(defi, rep), version=2,
+                                   encs=["P"] if V2ENC == "plain" else None)
